@@ -43,16 +43,16 @@ UNIT = dict(
         dict(text=open(os.path.join(U1, "lib_b.rs")).read().split("impl SendDispatcher {")[0]),
         dict(text=open(__file__.replace("unit.py", "lib.rs")).read()),
         dict(key="Stage::setup", file=STAGE, kind="fn", name="setup", owner=r"impl Stage\b", emit_owner="impl Stage", sig_prefix=NOISO, assumed="verified in unit U1", groups=["never"]),
-        dict(key="Stage::execute", file=STAGE, kind="fn", name="execute", owner=r"impl Stage\b", emit_owner="impl Stage", sig_prefix=NOISO),
-        dict(key="Data::inner", file=AS, kind="fn", name="inner", owner=DO, emit_owner="impl<R> Data<R>", pre_body_rules=PRE),
-        dict(key="Data::inner_noblock", file=AS, kind="fn", name="inner_noblock", owner=DO, emit_owner="impl<R> Data<R>", pre_body_rules=PRE),
-        dict(key="Data::sender", file=AS, kind="fn", name="sender", owner=DO, emit_owner="impl<R> Data<R>"),
-        dict(key="new_async", file=AS, kind="fn", name="new_async"),
-        dict(key="AsyncDispatcher::dispatch", file=AS, kind="fn", name="dispatch", owner=AD, emit_owner=ADO, sig_prefix=NOISO),
-        dict(key="AsyncDispatcher::wait", file=AS, kind="fn", name="wait", owner=AD, emit_owner=ADO, sig_prefix=NOISO),
-        dict(key="AsyncDispatcher::wait_without_tl", file=AS, kind="fn", name="wait_without_tl", owner=AD, emit_owner=ADO),
-        dict(key="AsyncDispatcher::running", file=AS, kind="fn", name="running", owner=AD, emit_owner=ADO),
-        dict(key="AsyncDispatcher::world", file=AS, kind="fn", name="world", owner=AD, emit_owner=ADO),
-        dict(key="AsyncDispatcher::world_mut", file=AS, kind="fn", name="world_mut", owner=AD, emit_owner=ADO),
+        dict(key="Stage::execute", groups=["hand"], file=STAGE, kind="fn", name="execute", owner=r"impl Stage\b", emit_owner="impl Stage", sig_prefix=NOISO),
+        dict(key="Data::inner", groups=["hand"], file=AS, kind="fn", name="inner", owner=DO, emit_owner="impl<R> Data<R>", pre_body_rules=PRE),
+        dict(key="Data::inner_noblock", groups=["hand"], file=AS, kind="fn", name="inner_noblock", owner=DO, emit_owner="impl<R> Data<R>", pre_body_rules=PRE),
+        dict(key="Data::sender", groups=["hand"], file=AS, kind="fn", name="sender", owner=DO, emit_owner="impl<R> Data<R>"),
+        dict(key="new_async", groups=["hand"], file=AS, kind="fn", name="new_async"),
+        dict(key="AsyncDispatcher::dispatch", groups=["hand"], file=AS, kind="fn", name="dispatch", owner=AD, emit_owner=ADO, sig_prefix=NOISO),
+        dict(key="AsyncDispatcher::wait", groups=["hand", "tlw"], file=AS, kind="fn", name="wait", owner=AD, emit_owner=ADO, sig_prefix=NOISO),
+        dict(key="AsyncDispatcher::wait_without_tl", groups=["hand"], file=AS, kind="fn", name="wait_without_tl", owner=AD, emit_owner=ADO),
+        dict(key="AsyncDispatcher::running", groups=["hand"], file=AS, kind="fn", name="running", owner=AD, emit_owner=ADO),
+        dict(key="AsyncDispatcher::world", groups=["hand"], file=AS, kind="fn", name="world", owner=AD, emit_owner=ADO),
+        dict(key="AsyncDispatcher::world_mut", groups=["hand"], file=AS, kind="fn", name="world_mut", owner=AD, emit_owner=ADO),
     ],
 )
